@@ -170,9 +170,8 @@ def read_item(src, tolerance=0):
 
     while src.hasNext():
         if src.peek().category == TC.Escape:
-            cmd_name, _ = make_read_peek(read_command)(
-                src, 1, skip=1, tolerance=tolerance)
-            if cmd_name in ('end', 'item'):
+            # only the name is needed: look at it without parsing arguments
+            if src.peek(1) in ('end', 'item'):
                 return extras
         elif src.peek().category == TC.GroupEnd:
             break
@@ -284,11 +283,12 @@ def read_env(src, expr, skip_envs=(), tolerance=0, mode=MODE_NON_MATH):
     """
     contents = []
     while src.hasNext():
-        if src.peek().category == TC.Escape:
+        # parse ahead only when the command is an \end: parsing every command
+        # twice doubles the work at each level of nesting
+        if src.peek().category == TC.Escape and src.peek(1) == 'end':
             name, args = make_read_peek(read_command)(
                 src, skip=1, tolerance=tolerance, mode=mode)
-            if name == 'end':
-                break
+            break
         contents.append(read_expr(src, skip_envs=skip_envs, tolerance=tolerance, mode=mode))
     error = not src.hasNext() or not args or args[0].string != expr.name
     if error and tolerance == 0:
